@@ -161,6 +161,25 @@ def _padded(ds_examples, bs, buckets):
   return list(fedjax.ClientDataset(ds_examples).padded_batch(batch_size=bs, num_batch_size_buckets=buckets))
 
 
+def _with_backend(backend, build):
+  """Builds a for-each-client object under the named backend ('jit' default, 'debug', 'pmapK')."""
+  if not backend or backend == 'jit':
+    return build()
+  import jax
+  from fedjax.core import for_each_client as fecm
+  be = fecm.ForEachClientPmapBackend(jax.local_devices()[:int(backend[4:])]) if backend.startswith('pmap') else backend
+  with fecm.for_each_client_backend(be):
+    return build()
+
+
+def _geoms(case):
+  if 'geom' in case:
+    return [tuple(case['geom'])]
+  if str(case.get('backend', '')).startswith('pmap'):
+    return [(bs, 1) for bs in range(1, 7)]   # the pmap backend needs equally shaped batches inside a block
+  return GEOMS
+
+
 def avg_loss(case):
   """evaluate_average_loss + AverageLossEvaluator over all geometries."""
   import fedjax
@@ -214,13 +233,13 @@ def mime_grads(case):
   from fedjax.algorithms import mime
   loss, reg, sizes = case['loss'], case['reg'], case['sizes']
   per_ex, regz, grad_fn, _, _ = impl(loss, reg)
-  key = ('mimeg', loss, reg)
+  key = ('mimeg', loss, reg, case.get('backend'))
   if key not in _CACHE:
-    _CACHE[key] = mime.create_grads_for_each_client(grad_fn)
+    _CACHE[key] = _with_backend(case.get('backend'), lambda: mime.create_grads_for_each_client(grad_fn))
   fec = _CACHE[key]
   seed = case.get('seed', 0)
   exs = [data(n, seed, off=i) for i, n in enumerate(sizes)]
-  geoms = [tuple(case['geom'])] if 'geom' in case else GEOMS
+  geoms = _geoms(case)
   evals = 0
   for p in (W0, W1):
     for bs, k in geoms:
@@ -257,16 +276,16 @@ def agnostic_domain(case):
   from fedjax.algorithms import agnostic_fed_avg as afa
   loss, sizes, nd = case['loss'], case['sizes'], case['num_domains']
   per_ex, _, _, _, _ = impl(loss, 'none')
-  key = ('afa', loss, nd)
+  key = ('afa', loss, nd, case.get('backend'))
   if key not in _CACHE:
-    _CACHE[key] = afa.create_domain_metrics_for_each_client(per_ex, nd)
+    _CACHE[key] = _with_backend(case.get('backend'), lambda: afa.create_domain_metrics_for_each_client(per_ex, nd))
   fec = _CACHE[key]
   seed = case.get('seed', 0)
   exs = [data(n, seed, off=i) for i, n in enumerate(sizes)]
   for ex in exs:
     ex['domain_id'] = (ex['domain_id'] % nd).astype(np.int32)
   alpha = np.asarray([0.5, 1.5, 2.0][:nd])
-  geoms = [tuple(case['geom'])] if 'geom' in case else GEOMS
+  geoms = _geoms(case)
   evals = 0
   for p in (W0, W1):
     for bs, k in geoms:
@@ -296,13 +315,13 @@ def hyp_losses(case):
   from fedjax.core import client_datasets as cds
   loss, reg, sizes = case['loss'], case['reg'], case['sizes']
   per_ex, regz, _, _, _ = impl(loss, reg)
-  key = ('ale', loss, reg)
+  key = ('ale', loss, reg, case.get('backend'))
   if key not in _CACHE:
-    _CACHE[key] = fedjax.AverageLossEvaluator(per_ex, regz)
+    _CACHE[key] = _with_backend(case.get('backend'), lambda: fedjax.AverageLossEvaluator(per_ex, regz))
   ale = _CACHE[key]
   seed = case.get('seed', 0)
   exs = [data(n, seed, off=i) for i, n in enumerate(sizes)]
-  geoms = [tuple(case['geom'])] if 'geom' in case else GEOMS
+  geoms = _geoms(case)
   clusters = [W0, W1]
   evals = 0
   base = None
@@ -434,12 +453,20 @@ def plan(ctx):
   ctx.pmap('avg_loss', [{'loss': l, 'reg': r, 'N': n, 'seed': s} for l in ('sq', 'abs') for r in regs for n in range(0, 6)],
            chunk=2)
   tuples = [[0], [3], [5], [2, 0, 3], [1, 4], [0, 0]] if th else [[3], [2, 0, 3], [0, 0]]
-  ctx.pmap('mime_grads', [{'loss': l, 'reg': r, 'sizes': t, 'seed': s} for l in ('sq', 'abs') for r in regs for t in tuples],
-           chunk=2)
+  # the same dataset-level quantities through the pmap backend, which reorders clients by their number of batches:
+  # client sizes deliberately NOT sorted, more clients than devices and a device count that does not divide them
+  ptuples = [[1, 7, 0, 3, 4], [2, 0, 3]] if not th else [[1, 7, 0, 3, 4], [2, 0, 3], [0, 5, 1, 6], [3, 3, 9]]
+  bes = ('pmap2',) if not th else ('pmap2', 'pmap3', 'debug')
+  ctx.pmap('mime_grads', [{'loss': l, 'reg': r, 'sizes': t, 'seed': s} for l in ('sq', 'abs') for r in regs for t in tuples] +
+           [{'loss': 'sq', 'reg': 'l2c', 'sizes': t, 'seed': s, 'backend': be} for be in bes for t in ptuples], chunk=2)
   ctx.pmap('reg_sequence', [{'loss': l, 'N': n, 'seed': s} for l in ('sq', 'abs') for n in (0, 3, 5)], chunk=1)
   ctx.pmap('mime_server_grad', [{'loss': l, 'reg': r, 'sizes': t, 'seed': s} for l in ('sq',) for r in ('none', 'l2', 'l2c')
                                 for t in ([3], [2, 0, 3], [0, 0], [5, 1])], chunk=1)
   ctx.pmap('agnostic_domain', [{'loss': l, 'sizes': t, 'num_domains': nd, 'seed': s} for l in ('sq', 'abs')
-                               for t in tuples for nd in (2, 3)], chunk=2)
+                               for t in tuples for nd in (2, 3)] +
+           [{'loss': 'sq', 'sizes': t, 'num_domains': 2, 'seed': s, 'backend': be} for be in bes for t in ptuples], chunk=2)
   ctx.pmap('hyp_losses', [{'loss': l, 'reg': r, 'sizes': t, 'seed': s} for l in ('sq', 'abs') for r in regs
-                          for t in ([[3], [2, 0, 3], [5, 1]] if not th else tuples)], chunk=2)
+                          for t in ([[3], [2, 0, 3], [5, 1]] if not th else tuples)] +
+           [{'loss': 'sq', 'reg': r, 'sizes': t, 'seed': s, 'backend': be} for be in bes for r in ('none', 'l2c')
+            for t in ptuples], chunk=2)
+
